@@ -401,6 +401,57 @@ func checkC06(w *World, r *Report) {
 					}
 				}
 			}
+			if !status {
+				// the test may sit in a helper: `if err := expectStatus(response, 101); err != nil { return }`
+				for v, t := range e.State.Facts {
+					x, eq, ok := nilTest(v)
+					if !ok || t != eq {
+						continue
+					}
+					hc, ok := x.(*ssa.Call)
+					if !ok {
+						continue
+					}
+					h := hc.Call.StaticCallee()
+					if h == nil || !inModule(h) || len(h.Blocks) == 0 {
+						continue
+					}
+					for ci, a := range hc.Call.Args {
+						if n, isC := constIntVal(a); !isC || n != spec.code || ci >= len(h.Params) {
+							continue
+						}
+						codeP := h.Params[ci]
+						okAll, nnil := true, 0
+						enumPaths(h, nil, nil, nil, func(he pathExit) {
+							hret, isRet := he.Last.(*ssa.Return)
+							if !isRet || len(hret.Results) != 1 || !isConstNil(he.State.Resolve(hret.Results[0])) {
+								return
+							}
+							nnil++
+							found := false
+							for hv, ht := range he.State.Facts {
+								b, isB := hv.(*ssa.BinOp)
+								if !isB || (b.Op != token.EQL && b.Op != token.NEQ) {
+									continue
+								}
+								for _, pr := range [][2]ssa.Value{{b.X, b.Y}, {b.Y, b.X}} {
+									if pr[1] == ssa.Value(codeP) && loadedFieldName(pr[0]) == "StatusCode" {
+										if (b.Op == token.NEQ && !ht) || (b.Op == token.EQL && ht) {
+											found = true
+										}
+									}
+								}
+							}
+							if !found {
+								okAll = false
+							}
+						})
+						if okAll && nnil > 0 {
+							status = true
+						}
+					}
+				}
+			}
 			if !parsed {
 				bad = "client continues on a path where the server's response was not parsed"
 			} else if !status {
